@@ -844,7 +844,8 @@ class C06(ParseProp):
     def fixed_sentences(self):
         return ["$", "$.store.book[*].author", "$..author", "$.store.*", "$.store..price", "$..book[2]", "$..book[-1]", "$..book[0,1]", "$..book[:2]",
                 "$..book[?@.isbn]", "$..book[?@.price<10]", "$..*", "$[?@.a==1e999]", "$[?@.a==9007199254740992]", "$[?@.a==-9007199254740993]",
-                "$[?@.a==123456789012345678901234567890]", "$['\\u263a']", "$['\\u263A']", "$['\\ud83d\\ude00']", "$['\\uD83D\\uDE00']", "$[\"\\\"\"]", "$['\u263a']",
+                "$[?@.a==123456789012345678901234567890]", "$['\\u263a']", "$['\\u263A']", "$['\\ud83d\\ude00']", "$['\\uD83D\\uDE00']", "$['\\udbff\\udfff']", "$['\\uDBFF\\uDFFF']", "$['\\udaff\\udc00']",
+                "$['\\udAfF\\uDc00']", "$[\"\\udb00\\udd00\"]", "$['\\ud800\\udc00']", "$[?@.a=='\\udbc0\\udfff']", "$['\\ud7ff\\ue000\\uffff']", "$[\"\\\"\"]", "$['\u263a']",
                 "$.\u2028", "$.a\u00a0", "$[?length(@.a)>=2]", "$[?count(@.*)==1]", "$[?match(@.a,'x.*')]", "$[?search(@.a,\"[a-c]\")]",
                 "$[?value(@..a)==1]", "$[?@.a==-0]", "$[?@.a==-0.0]", "$[?@.a==0e0]", "$[?@.a==1E-2]", "$[ 'a' ]", "$[ 0 : 1 : 2 ]", "$[::]", "$[:]", "$[::-1]",
                 "$[?(@.a)]", "$[?!(@.a)]", "$[?! @.a]", "$[?!\n@.a]", "$[? @.a && @.b || @.c ]", "$[?@['a'][0].b==$.x[1]]", "$[?@ == 'it\\'s']",
@@ -1319,8 +1320,17 @@ class C12(PropCheck):
                 continue
             loc = self.rng.choice(locs_)
             text = "$"
+            spelled = []
             for kind, v in loc:
-                text += "[%d]" % v if kind == "i" else "[" + gen.fancy_name(self.rng, v) + "]"
+                if kind == "i":
+                    text += "[%d]" % v
+                else:
+                    raw = gen.fancy_name(self.rng, v)
+                    spelled.append(("name", S(raw)))
+                    text += "[" + raw + "]"
+            if spelled and self.rng.random() < 0.4:
+                # a member whose name IS the spelling (quotes and escapes included) next to the member it denotes
+                d = gh.add_decoys(d, ("q",) + tuple(spelled))
             out.append(Case("e%d" % k, "E2E", [S(text), d], {"entry": True, "query": text}))
             k += 1
         return out
